@@ -344,6 +344,7 @@ func parseSpecExpr(s, pos string) (e *Expr, err error) {
 // ---------------------------------------------------------------- contracts
 
 type Clause struct {
+	Local bool // concrete-layer clause: not an obligation of callers in other packages (assumed there)
 	Label string
 	E     *Expr
 	Pos   string
@@ -429,8 +430,70 @@ type FuncSpec struct {
 	TrustedEnsures  []Clause
 	TrustedModifies []*Expr
 	TrustedWhy      string
+	InternalEnsures []Clause // proved for the body, not exported to callers (may mention ghost variables)
 	Unguarded       []string // "Type.field" reads exempt from guarded_by in this function (with reason)
 	UnguardedWhy    []string
+}
+
+// merge appends the clauses of a second contract block for the same function (layers of the
+// same contract may be written in different sections of a contract file).
+func (f *FuncSpec) merge(g *FuncSpec) {
+	if len(f.ParamNms) == 0 {
+		f.ParamNms = g.ParamNms
+	}
+	if len(f.ResultNms) == 0 {
+		f.ResultNms = g.ResultNms
+	}
+	for _, p := range g.Props {
+		if !hasPropS(f.Props, p) {
+			f.Props = append(f.Props, p)
+		}
+	}
+	f.Requires = append(f.Requires, g.Requires...)
+	f.Ensures = append(f.Ensures, g.Ensures...)
+	f.InternalEnsures = append(f.InternalEnsures, g.InternalEnsures...)
+	f.Modifies = append(f.Modifies, g.Modifies...)
+	f.HasMod = f.HasMod || g.HasMod
+	for k, v := range g.Loops {
+		if old, ok := f.Loops[k]; ok {
+			old.Invs = append(old.Invs, v.Invs...)
+		} else {
+			f.Loops[k] = v
+		}
+	}
+	f.GhostVars = append(f.GhostVars, g.GhostVars...)
+	f.GhostAt = append(f.GhostAt, g.GhostAt...)
+	f.Asserts = append(f.Asserts, g.Asserts...)
+	f.Pure = f.Pure || g.Pure
+	f.Inline = f.Inline || g.Inline
+	if g.Trusted != "" {
+		f.Trusted = g.Trusted
+	}
+	f.Exclusive = f.Exclusive || g.Exclusive
+	f.Preserves = append(f.Preserves, g.Preserves...)
+	f.NoPanic = f.NoPanic || g.NoPanic
+	f.Fresh = append(f.Fresh, g.Fresh...)
+	f.Acquires = append(f.Acquires, g.Acquires...)
+	f.Releases = append(f.Releases, g.Releases...)
+	f.Holds = append(f.Holds, g.Holds...)
+	f.Macros = append(f.Macros, g.Macros...)
+	f.Unfolds = append(f.Unfolds, g.Unfolds...)
+	f.TrustedEnsures = append(f.TrustedEnsures, g.TrustedEnsures...)
+	f.TrustedModifies = append(f.TrustedModifies, g.TrustedModifies...)
+	if g.TrustedWhy != "" {
+		f.TrustedWhy = g.TrustedWhy
+	}
+	f.Unguarded = append(f.Unguarded, g.Unguarded...)
+	f.UnguardedWhy = append(f.UnguardedWhy, g.UnguardedWhy...)
+}
+
+func hasPropS(ps []string, p string) bool {
+	for _, x := range ps {
+		if x == p {
+			return true
+		}
+	}
+	return false
 }
 
 type TypeSpec struct {
@@ -992,6 +1055,27 @@ func parseFuncClause(f *FuncSpec, word, rest, pos string, ext bool) error {
 		}
 		f.Modifies = append(f.Modifies, es...)
 		f.HasMod = true
+	case "local":
+		w2, r2 := splitWord(rest)
+		if w2 != "requires" {
+			return fmt.Errorf("%s: expected 'local requires'", pos)
+		}
+		c, err := parseClause(r2, pos)
+		if err != nil {
+			return err
+		}
+		c.Local = true
+		f.Requires = append(f.Requires, c)
+	case "internal":
+		w2, r2 := splitWord(rest)
+		if w2 != "ensures" {
+			return fmt.Errorf("%s: expected 'internal ensures'", pos)
+		}
+		c, err := parseClause(r2, pos)
+		if err != nil {
+			return err
+		}
+		f.InternalEnsures = append(f.InternalEnsures, c)
 	case "abstract":
 		// abstract ensures ... / abstract modifies ... / abstract gap NAME: reason
 		w2, r2 := splitWord(rest)
@@ -1222,6 +1306,10 @@ func (db *SpecDB) add(sf *SpecFile, pkg string) {
 		k := pkg + "::" + f.Key
 		if f.Ext {
 			k = "ext::" + f.Key
+		}
+		if old, ok := db.Funcs[k]; ok && !f.Ext {
+			old.merge(f)
+			continue
 		}
 		db.Funcs[k] = f
 	}
